@@ -50,8 +50,10 @@ def build_case(cid, rng):
     yld = " ::vrt::yield_once().await;" if is_async else ""
     for i in range(1, depth + 1):
         kind = rng.choice(kinds)
-        links.append(kind)
         last = i == depth
+        if last and rng.random() < 0.2:
+            kind = "no_deps"   # a leaf without any dependency (`no_deps`): it can only end a chain
+        links.append(kind)
         nxt_trait = "L%d" % (i + 1)
         call_next_t = ("deps.l%d(*b + %d%s)%s" % (i + 1, i, SA, aw)) if not last else LAST
         call_next_g = ("g%d(deps, *b + %d%s)%s" % (i + 1, i, SA, aw)) if not last else LAST
@@ -69,7 +71,7 @@ def build_case(cid, rng):
             boxes = "let x = x + t.into(); " + boxes
             gen_used.append(True)
         # a statically delegated helper with a mock option (inert in this build) that returns `impl Iterator`
-        use_iter = (not is_async) and rng.random() < 0.4
+        use_iter = (not is_async) and rng.random() < 0.4 and kind != "no_deps"
         if use_iter:
             mock = rng.choice(["mockall", "mockall = true", "mock_api = It%dMock, unimock = true" % i, "mockall, export = false"])
             L.append("#[::entrait::entrait(pub It%d, %s)] /*@it%d*/\nfn it%d<D>(deps: &D, x: u64) -> impl ::core::iter::Iterator<Item = u64> { (0..(x %% 3)).map(|v| v * 2) }" % (i, mock, i, i))
@@ -94,7 +96,14 @@ def build_case(cid, rng):
             extra_b = " + ::core::marker::Copy + ::core::marker::Send + ::core::marker::Sync"
             bound_i = (bound[:-1] + extra_b + ")") if bound.startswith("(") else ("(" + bound + extra_b + ")")
             byval_used.append(True)
-        if kind == "fn":
+        if kind == "no_deps":
+            nd = rng.choice(["fn", "mod"])
+            sig_nd = "%sfn l%d%s(x: u64%s) -> u64 %s" % (asy, i, G, SP, body_t)
+            if nd == "fn":
+                L.append("#[::entrait::entrait(pub L%d, no_deps%s)] /*@inv%d*/\n%s" % (i, OPT, i, sig_nd))
+            else:
+                L.append("#[::entrait::entrait(pub L%d, no_deps%s)] /*@inv%d*/\npub mod lm%d { use super::*; pub %s }" % (i, OPT, i, i, sig_nd))
+        elif kind == "fn":
             L.append("#[::entrait::entrait(pub L%d%s)] /*@inv%d*/\n%sfn l%d%s(deps: %s%s, x: u64%s) -> u64 %s" % (i, OPT, i, asy, i, Gi, AMP, bound_i, SPi, body_t))
         elif kind == "mod":
             L.append("#[::entrait::entrait(pub L%d%s)] /*@inv%d*/\npub mod lm%d { use super::*; pub %sfn l%d%s(deps: %s%s, x: u64%s) -> u64 %s }" % (i, OPT, i, i, asy, i, Gi, AMP, bound_i, SPi, body_t))
